@@ -54,10 +54,13 @@ Definition cf_is_url (s : bytes) : Prop := exists u, parse_request_uri s = Some 
 Definition cf_localhost_http (s : bytes) : Prop :=
   exists u, parse_request_uri s = Some u /\ to_lower (hostname u) = cf_lit_localhost /\ u_scheme u = cf_lit_http.
 
-(* a valid http(s) ingress: parses, has a host, scheme http or https *)
-Definition cf_valid_ingress (s : bytes) : Prop :=
+(* a valid http(s) ingress: parses, has a host, scheme http or https; and (since fix 9040a49, part of the implemented
+   AND documented ingress rule) its path, which becomes a route prefix, contains none of the router's pattern
+   characters '*', '{', '}' *)
+Definition cf_valid_ingress (v : cf_variant) (s : bytes) : Prop :=
   s <> [] /\ exists u, parse_request_uri s = Some u /\ u_host u <> [] /\
-                       (u_scheme u = cf_lit_http \/ u_scheme u = cf_lit_https).
+                       (u_scheme u = cf_lit_http \/ u_scheme u = cf_lit_https) /\
+                       (cf_v_ingress_strict v = true -> cf_has_pattern (trim_right_slash (u_path u)) = false).
 
 Definition cf_rule_cookie (c : cf_cfg) : Prop :=
   In (cf_samesite c) [cf_lit_lax; cf_lit_none; cf_lit_strict] /\
@@ -71,14 +74,18 @@ Definition cf_rule_sso (c : cf_cfg) : Prop :=
    (cf_ssomode c = cf_lit_server /\ cf_ssodomain c <> [] /\ cf_is_url (cf_ssoredirect c))).
 Definition cf_rule_upstream (c : cf_cfg) : Prop :=
   (cf_upip c = [] /\ cf_upport c = 0%Z) \/ (cf_upip c <> [] /\ (1 <= cf_upport c <= 65535)%Z).
-Definition cf_rule_periods (c : cf_cfg) : Prop := (cf_waitbefore c < cf_graceful c)%Z.
-(* the key rule as implemented: zero decoded bytes count as "no key" *)
+(* since fix 164dd13 the wait-before period must not be negative *)
+Definition cf_rule_periods (v : cf_variant) (c : cf_cfg) : Prop :=
+  (cf_v_wait_nonneg v = true -> (0 <= cf_waitbefore c)%Z) /\ (cf_waitbefore c < cf_graceful c)%Z.
+(* the key rule as implemented BEFORE fix 9e1f3d0: zero decoded bytes count as "no key" *)
 Definition cf_rule_key_impl (c : cf_cfg) : Prop :=
   exists n, cf_b64_len (cf_key c) = Some n /\ (n = 0 \/ n = 32).
 (* the key rule of the property text: absent, or decodes to exactly 32 bytes *)
 Definition cf_rule_key_doc (c : cf_cfg) : Prop := cf_key c = [] \/ cf_b64_len (cf_key c) = Some 32.
-Definition cf_rule_ingress (c : cf_cfg) : Prop :=
-  cf_ingresses c <> [] /\ Forall cf_valid_ingress (cf_ingresses c).
+Definition cf_rule_key (v : cf_variant) (c : cf_cfg) : Prop :=
+  if cf_v_key_strict v then cf_rule_key_doc c else cf_rule_key_impl c.
+Definition cf_rule_ingress (v : cf_variant) (c : cf_cfg) : Prop :=
+  cf_ingresses c <> [] /\ Forall (cf_valid_ingress v) (cf_ingresses c).
 Definition cf_rule_client (c : cf_cfg) : Prop :=
   (cf_jwk c <> [] \/ cf_secret c <> []) /\ (cf_jwk c <> [] -> In (cf_jwk c) (cf_ojwk c)) /\
   cf_clientid c <> [] /\ cf_wellknown c <> [].
@@ -96,15 +103,18 @@ Definition cf_rule_redis (c : cf_cfg) : Prop := cf_redisuri c <> [] -> In (cf_re
 Definition cf_rule_routes (c : cf_cfg) : Prop := Forall (fun s => cf_route_ok s = true) (cf_ingresses c).
 
 (** everything except the key rule and the route-pattern rule *)
-Definition cf_rules_core (c : cf_cfg) (d : cf_disc) : Prop :=
-  cf_rule_cookie c /\ cf_rule_alg c /\ cf_rule_sso c /\ cf_rule_upstream c /\ cf_rule_periods c /\
-  cf_rule_openid c d /\ cf_rule_redis c /\ cf_rule_ingress c.
+Definition cf_rules_core (v : cf_variant) (c : cf_cfg) (d : cf_disc) : Prop :=
+  cf_rule_cookie c /\ cf_rule_alg c /\ cf_rule_sso c /\ cf_rule_upstream c /\ cf_rule_periods v c /\
+  cf_rule_openid c d /\ cf_rule_redis c /\ cf_rule_ingress v c.
 
-(** the rules the code implements *)
-Definition cf_rules_impl (c : cf_cfg) (d : cf_disc) : Prop :=
-  cf_rules_core c d /\ cf_rule_key_impl c /\ cf_rule_routes c.
-(** the rules of the property text and docs/configuration.md (no rule about route patterns, strict key rule) *)
-Definition cf_rules_doc (c : cf_cfg) (d : cf_disc) : Prop := cf_rules_core c d /\ cf_rule_key_doc c.
+(** the rules the code variant [v] implements (the last conjunct: router.New does not panic) *)
+Definition cf_rules_impl (v : cf_variant) (c : cf_cfg) (d : cf_disc) : Prop :=
+  cf_rules_core v c d /\ cf_rule_key v c /\ cf_rule_routes c.
+(** the rules of the property text and docs/configuration.md: strict key rule, non-negative wait-before, ingress
+    paths without route-pattern characters; no separate rule about the router *)
+Definition cf_rules_doc (c : cf_cfg) (d : cf_disc) : Prop := cf_rules_core cf_cur c d /\ cf_rule_key_doc c.
+(** what the property text said before the fixes, used by the statements about the old variants *)
+Definition cf_rules_doc_old (c : cf_cfg) (d : cf_disc) : Prop := cf_rules_core cf_old c d /\ cf_rule_key_doc c.
 
 Definition cf_typed_ok (r : cf_raw) : Prop := cf_any_flag_bad r = false /\ cf_any_env_bad r = false.
 
@@ -202,17 +212,23 @@ Proof.
       * split; [intros _; right; split; [exact Ei|lia]|reflexivity].
 Qed.
 
-Lemma cf_periods_validate_none c : cf_periods_validate c = None <-> cf_rule_periods c.
+Lemma cf_periods_validate_none v c : cf_periods_validate v c = None <-> cf_rule_periods v c.
 Proof.
   unfold cf_periods_validate, cf_rule_periods.
-  destruct (cf_graceful c <=? cf_waitbefore c)%Z eqn:E; [apply Z.leb_le in E|apply Z.leb_gt in E].
-  - split; [discriminate|lia].
-  - split; [intros _; exact E|reflexivity].
+  destruct (cf_v_wait_nonneg v); cbn [andb].
+  - destruct (cf_waitbefore c <? 0)%Z eqn:E0; [apply Z.ltb_lt in E0|apply Z.ltb_ge in E0].
+    + split; [discriminate|intros [H _]; specialize (H eq_refl); lia].
+    + destruct (cf_graceful c <=? cf_waitbefore c)%Z eqn:E; [apply Z.leb_le in E|apply Z.leb_gt in E].
+      * split; [discriminate|lia].
+      * split; [intros _; split; [intros _; exact E0|exact E]|reflexivity].
+  - destruct (cf_graceful c <=? cf_waitbefore c)%Z eqn:E; [apply Z.leb_le in E|apply Z.leb_gt in E].
+    + split; [discriminate|lia].
+    + split; [intros _; split; [discriminate|exact E]|reflexivity].
 Qed.
 
-Lemma cf_validate_none c :
-  cf_validate c = None <->
-  cf_rule_cookie c /\ cf_rule_alg c /\ cf_rule_sso c /\ cf_rule_upstream c /\ cf_rule_periods c.
+Lemma cf_validate_none v c :
+  cf_validate v c = None <->
+  cf_rule_cookie c /\ cf_rule_alg c /\ cf_rule_sso c /\ cf_rule_upstream c /\ cf_rule_periods v c.
 Proof.
   unfold cf_validate. rewrite !cf_seq_none, cf_cookie_validate_none, cf_openid_validate_none, cf_sso_validate_none,
     cf_upstream_validate_none, cf_periods_validate_none. reflexivity.
@@ -221,15 +237,35 @@ Qed.
 Lemma cf_b64_len_nil : cf_b64_len [] = Some 0.
 Proof. reflexivity. Qed.
 
-Lemma cf_key_check_none k : cf_key_check k = None <-> exists n, cf_b64_len k = Some n /\ (n = 0 \/ n = 32).
+Lemma cf_key_check_old_none v k : cf_v_key_strict v = false ->
+  (cf_key_check v k = None <-> exists n, cf_b64_len k = Some n /\ (n = 0 \/ n = 32)).
 Proof.
-  unfold cf_key_check. destruct (cf_b64_len k) as [n|] eqn:E.
+  intros Hv. unfold cf_key_check. rewrite Hv. destruct (cf_b64_len k) as [n|] eqn:E.
   - destruct (n =? 0) eqn:E0; [apply N.eqb_eq in E0|apply N.eqb_neq in E0]; cbn [orb].
     + split; [intros _; exists n; auto|reflexivity].
     + destruct (n =? 32) eqn:E1; [apply N.eqb_eq in E1|apply N.eqb_neq in E1].
       * split; [intros _; exists n; auto|reflexivity].
       * split; [discriminate|]. intros (m & [= <-] & [H|H]); contradiction.
   - destruct k; [discriminate E|]. cbn [is_empty]. split; [discriminate|intros (m & H & _); discriminate].
+Qed.
+
+Lemma cf_key_check_strict_none v k : cf_v_key_strict v = true ->
+  (cf_key_check v k = None <-> k = [] \/ cf_b64_len k = Some 32).
+Proof.
+  intros Hv. unfold cf_key_check. rewrite Hv. destruct k as [|c k]; cbn [is_empty].
+  - split; auto.
+  - destruct (cf_b64_len (c :: k)) as [n|] eqn:E.
+    + destruct (n =? 32) eqn:E1; [apply N.eqb_eq in E1|apply N.eqb_neq in E1].
+      * subst. split; auto.
+      * split; [discriminate|intros [H|[= H]]; [discriminate|contradiction]].
+    + split; [discriminate|intros [H|H]; discriminate].
+Qed.
+
+Lemma cf_key_check_none v c : cf_key_check v (cf_key c) = None <-> cf_rule_key v c.
+Proof.
+  unfold cf_rule_key, cf_rule_key_doc, cf_rule_key_impl. destruct (cf_v_key_strict v) eqn:E.
+  - apply cf_key_check_strict_none, E.
+  - apply cf_key_check_old_none, E.
 Qed.
 
 Lemma cf_client_config_none c : cf_client_config c = None <-> cf_rule_client c.
@@ -312,7 +348,7 @@ Proof.
     assert (cf_store_configured c = true) by (apply cf_store_configured_spec; right; exact H). congruence.
 Qed.
 
-Lemma cf_parse_ingress_none s : cf_parse_ingress s = None <-> cf_valid_ingress s.
+Lemma cf_parse_ingress_none v s : cf_parse_ingress v s = None <-> cf_valid_ingress v s.
 Proof.
   unfold cf_parse_ingress, cf_valid_ingress.
   destruct (is_empty s) eqn:Ee; [apply cf_is_empty_true in Ee|apply cf_is_empty_false in Ee].
@@ -321,19 +357,24 @@ Proof.
   2:{ split; [discriminate|intros (_ & u & H & _); discriminate]. }
   destruct (is_empty (u_host u)) eqn:Eh; [apply cf_is_empty_true in Eh|apply cf_is_empty_false in Eh].
   { split; [discriminate|intros (_ & u' & [= <-] & H & _); contradiction]. }
-  destruct (beq (u_scheme u) cf_lit_http) eqn:E1; cbn [orb negb].
-  { apply beq_eq in E1. split; [intros _; split; [exact Ee|exists u; auto]|reflexivity]. }
-  apply beq_neq in E1.
-  destruct (beq (u_scheme u) cf_lit_https) eqn:E2; cbn [negb].
-  { apply beq_eq in E2. split; [intros _; split; [exact Ee|exists u; auto]|reflexivity]. }
-  apply beq_neq in E2. split; [discriminate|intros (_ & u' & [= <-] & _ & [H|H]); contradiction].
+  assert (Hsch : (beq (u_scheme u) cf_lit_http || beq (u_scheme u) cf_lit_https) = true <->
+                 (u_scheme u = cf_lit_http \/ u_scheme u = cf_lit_https)).
+  { rewrite orb_true_iff, !beq_eq. reflexivity. }
+  destruct (beq (u_scheme u) cf_lit_http || beq (u_scheme u) cf_lit_https) eqn:Es; cbn [negb].
+  2:{ split; [discriminate|]. intros (_ & u' & [= <-] & _ & H & _). apply Hsch in H. discriminate. }
+  pose proof (proj1 Hsch eq_refl) as Hs.
+  destruct (cf_v_ingress_strict v); cbn [andb].
+  - destruct (cf_has_pattern (trim_right_slash (u_path u))) eqn:Ep.
+    + split; [discriminate|]. intros (_ & u' & [= <-] & _ & _ & H). specialize (H eq_refl). congruence.
+    + split; [intros _; split; [exact Ee|exists u; repeat split; auto]|reflexivity].
+  - split; [intros _; split; [exact Ee|exists u; repeat split; auto; discriminate]|reflexivity].
 Qed.
 
-Lemma cf_parse_ingresses_none c : cf_parse_ingresses c = None <-> cf_rule_ingress c.
+Lemma cf_parse_ingresses_none v c : cf_parse_ingresses v c = None <-> cf_rule_ingress v c.
 Proof.
   unfold cf_parse_ingresses, cf_rule_ingress. destruct (cf_ingresses c) as [|x l] eqn:E.
   - split; [discriminate|intros [H _]; contradiction].
-  - rewrite cf_first_err_none, (cf_forall_iff _ _ _ cf_parse_ingress_none).
+  - rewrite cf_first_err_none, (cf_forall_iff _ _ _ (cf_parse_ingress_none v)).
     split; [intros H; split; [discriminate|exact H]|intros [_ H]; exact H].
 Qed.
 
@@ -345,8 +386,8 @@ Proof.
     assert (forallb cf_route_ok (cf_ingresses c) = true) by (apply forallb_forall; exact H). congruence.
 Qed.
 
-Lemma cf_standalone_none c d :
-  cf_standalone c d = None <-> cf_rule_client c /\ cf_rule_disc c d /\ cf_rule_redis c /\ cf_rule_ingress c.
+Lemma cf_standalone_none v c d :
+  cf_standalone v c d = None <-> cf_rule_client c /\ cf_rule_disc c d /\ cf_rule_redis c /\ cf_rule_ingress v c.
 Proof.
   unfold cf_standalone.
   rewrite cf_seq_none, cf_client_config_none.
@@ -365,8 +406,8 @@ Lemma cf_mode_proxy c : cf_ssoenabled c = true -> cf_ssomode c = cf_lit_proxy ->
 Proof. unfold cf_mode_of. intros -> ->. reflexivity. Qed.
 
 (** * The handler constructors, given that Config.Validate passed *)
-Lemma cf_handler_none c d : cf_rule_sso c ->
-  (cf_handler c d = None <-> cf_rule_openid c d /\ cf_rule_redis c /\ cf_rule_ingress c).
+Lemma cf_handler_none v c d : cf_rule_sso c ->
+  (cf_handler v c d = None <-> cf_rule_openid c d /\ cf_rule_redis c /\ cf_rule_ingress v c).
 Proof.
   intros Hsso. unfold cf_handler, cf_rule_openid, cf_is_proxy.
   destruct (cf_ssoenabled c) eqn:Een.
@@ -389,63 +430,108 @@ Proof.
     + intros (Ho & Hr & Hi). destruct Ho as [Hc Hd]; [intros [H _]; discriminate|]. auto.
 Qed.
 
-Theorem cf_boot_none c d : cf_boot c d = None <-> cf_rules_impl c d.
+Theorem cf_boot_none v c d : cf_boot v c d = None <-> cf_rules_impl v c d.
 Proof.
-  unfold cf_boot, cf_rules_impl, cf_rules_core, cf_rule_key_impl.
+  unfold cf_boot, cf_rules_impl, cf_rules_core.
   rewrite !cf_seq_none, cf_validate_none, cf_key_check_none, cf_router_none.
   split.
   - intros ((Hck & Ha & Hs & Hu & Hp) & Hk & Hh & Hr).
-    apply (cf_handler_none c d Hs) in Hh. tauto.
+    apply (cf_handler_none v c d Hs) in Hh. tauto.
   - intros ((Hck & Ha & Hs & Hu & Hp & Ho & Hre & Hi) & Hk & Hr).
-    assert (Hh : cf_handler c d = None) by (apply (cf_handler_none c d Hs); auto).
+    assert (Hh : cf_handler v c d = None) by (apply (cf_handler_none v c d Hs); auto).
     tauto.
 Qed.
 
 (** * Main equivalence *)
-Lemma cf_run_zero r d : cf_run r d = 0%Z <-> cf_typed_ok r /\ cf_boot (cf_resolve_all r) d = None.
+Lemma cf_run_zero v r d : cf_run v r d = 0%Z <-> cf_typed_ok r /\ cf_boot v (cf_resolve_all r) d = None.
 Proof.
   unfold cf_run, cf_typed_ok.
   destruct (cf_any_flag_bad r). { split; [discriminate|intros [[H _] _]; discriminate]. }
   destruct (cf_any_env_bad r). { split; [discriminate|intros [[_ H] _]; discriminate]. }
-  destruct (cf_boot (cf_resolve_all r) d) as [e|]; cbn [cf_code].
+  destruct (cf_boot v (cf_resolve_all r) d) as [e|]; cbn [cf_code].
   - split; [discriminate|intros [_ H]; discriminate].
   - split; [intros _; auto|reflexivity].
 Qed.
 
-Theorem cf_starts_iff r d :
-  cf_starts r d = true <-> cf_typed_ok r /\ cf_rules_impl (cf_resolve_all r) d.
+Theorem cf_starts_iff v r d :
+  cf_starts v r d = true <-> cf_typed_ok r /\ cf_rules_impl v (cf_resolve_all r) d.
 Proof. unfold cf_starts. rewrite Z.eqb_eq, cf_run_zero, cf_boot_none. reflexivity. Qed.
 
-(** * Corollaries used elsewhere (C19: W < G; C14: insecure cookies only on http://localhost) *)
+(** * With the strict ingress rule the router cannot panic: the route-pattern conjunct is implied *)
+Lemma cf_chi_suffix_ok : forall fuel, cf_chi_ok fuel (cf_lit_oauth2 ++ [47; 42]) [] = true.
+Proof. intros fuel. do 10 (destruct fuel as [|fuel]; [reflexivity|]). reflexivity. Qed.
 
-Corollary cf_starts_periods r d : cf_starts r d = true ->
+Lemma cf_chi_plain_ok s : cf_has_pattern s = false ->
+  forall fuel, cf_chi_ok fuel (s ++ cf_lit_oauth2 ++ [47; 42]) [] = true.
+Proof.
+  induction s as [|c s IH]; intros Hp fuel.
+  - apply cf_chi_suffix_ok.
+  - destruct fuel as [|fuel]; [reflexivity|].
+    cbn [cf_has_pattern existsb] in Hp. apply orb_false_elim in Hp as [Hc Hs].
+    unfold cf_pattern_byte in Hc. apply orb_false_elim in Hc as [Hc _]. apply orb_false_elim in Hc as [H42 H123].
+    cbn [app cf_chi_ok]. rewrite H42, H123. apply IH, Hs.
+Qed.
+
+Lemma cf_valid_ingress_route_ok v s : cf_v_ingress_strict v = true -> cf_valid_ingress v s -> cf_route_ok s = true.
+Proof.
+  intros Hv (_ & u & Hu & _ & _ & Hp). unfold cf_route_ok. rewrite Hu. cbv zeta.
+  apply cf_chi_plain_ok, Hp, Hv.
+Qed.
+
+Lemma cf_strict_routes v c : cf_v_ingress_strict v = true -> cf_rule_ingress v c -> cf_rule_routes c.
+Proof.
+  intros Hv [_ H]. unfold cf_rule_routes. eapply Forall_impl; [|exact H].
+  intros s. apply cf_valid_ingress_route_ok, Hv.
+Qed.
+
+(** the current code: starts iff the documented rules hold, no proviso in either direction *)
+Theorem cf_starts_iff_doc r d :
+  cf_starts cf_cur r d = true <-> cf_typed_ok r /\ cf_rules_doc (cf_resolve_all r) d.
+Proof.
+  rewrite cf_starts_iff. unfold cf_rules_impl, cf_rules_doc, cf_rule_key. cbn [cf_v_key_strict cf_cur].
+  split.
+  - intros (Ht & Hc & Hk & _). auto.
+  - intros (Ht & Hc & Hk). split; [exact Ht|]. split; [exact Hc|]. split; [exact Hk|].
+    apply (cf_strict_routes cf_cur); [reflexivity|]. unfold cf_rules_core in Hc. tauto.
+Qed.
+
+(** * Corollaries used elsewhere (C19: 0 <= W < G; C14: insecure cookies only on http://localhost) *)
+
+Corollary cf_starts_periods v r d : cf_starts v r d = true ->
   (cf_waitbefore (cf_resolve_all r) < cf_graceful (cf_resolve_all r))%Z.
-Proof. intros H. apply cf_starts_iff in H. unfold cf_rules_impl, cf_rules_core in H. tauto. Qed.
+Proof. intros H. apply cf_starts_iff in H. unfold cf_rules_impl, cf_rules_core, cf_rule_periods in H. tauto. Qed.
 
-Corollary cf_starts_insecure r d : cf_starts r d = true -> cf_secure (cf_resolve_all r) = false ->
+Corollary cf_starts_periods_cur r d : cf_starts cf_cur r d = true ->
+  (0 <= cf_waitbefore (cf_resolve_all r) < cf_graceful (cf_resolve_all r))%Z.
+Proof.
+  intros H. apply cf_starts_iff in H. unfold cf_rules_impl, cf_rules_core, cf_rule_periods in H.
+  destruct H as (_ & (_ & _ & _ & _ & (Hn & Hl) & _) & _). split; [apply Hn; reflexivity|exact Hl].
+Qed.
+
+Corollary cf_starts_insecure v r d : cf_starts v r d = true -> cf_secure (cf_resolve_all r) = false ->
   Forall cf_localhost_http (cf_ingresses (cf_resolve_all r)).
 Proof.
   intros H Hs. apply cf_starts_iff in H. unfold cf_rules_impl, cf_rules_core, cf_rule_cookie in H.
   destruct H as (_ & ((_ & Hc) & _) & _). auto.
 Qed.
 
-Corollary cf_starts_ingress r d : cf_starts r d = true -> cf_rule_ingress (cf_resolve_all r).
+Corollary cf_starts_ingress v r d : cf_starts v r d = true -> cf_rule_ingress v (cf_resolve_all r).
 Proof. intros H. apply cf_starts_iff in H. unfold cf_rules_impl, cf_rules_core in H. tauto. Qed.
 
-Corollary cf_starts_sso r d : cf_starts r d = true -> cf_rule_sso (cf_resolve_all r).
+Corollary cf_starts_sso v r d : cf_starts v r d = true -> cf_rule_sso (cf_resolve_all r).
 Proof. intros H. apply cf_starts_iff in H. unfold cf_rules_impl, cf_rules_core in H. tauto. Qed.
 
-Corollary cf_starts_openid r d : cf_starts r d = true -> ~ cf_is_proxy (cf_resolve_all r) ->
+Corollary cf_starts_openid v r d : cf_starts v r d = true -> ~ cf_is_proxy (cf_resolve_all r) ->
   cf_rule_client (cf_resolve_all r) /\ cf_rule_disc (cf_resolve_all r) d.
 Proof. intros H Hp. apply cf_starts_iff in H. unfold cf_rules_impl, cf_rules_core, cf_rule_openid in H. tauto. Qed.
 
-Corollary cf_starts_upstream r d : cf_starts r d = true -> cf_rule_upstream (cf_resolve_all r).
+Corollary cf_starts_upstream v r d : cf_starts v r d = true -> cf_rule_upstream (cf_resolve_all r).
 Proof. intros H. apply cf_starts_iff in H. unfold cf_rules_impl, cf_rules_core in H. tauto. Qed.
 
-Corollary cf_starts_key r d : cf_starts r d = true -> cf_rule_key_impl (cf_resolve_all r).
+Corollary cf_starts_key v r d : cf_starts v r d = true -> cf_rule_key v (cf_resolve_all r).
 Proof. intros H. apply cf_starts_iff in H. unfold cf_rules_impl in H. tauto. Qed.
 
-(** * Relation to the documented rule set *)
+(** * The old variants and the documented rule set *)
 
 (* a key string is blank when it is non-empty but decodes to zero bytes (only CR / LF) *)
 Definition cf_key_blank (c : cf_cfg) : Prop := cf_key c <> [] /\ cf_b64_len (cf_key c) = Some 0.
@@ -460,20 +546,24 @@ Qed.
 Lemma cf_key_doc_impl c : cf_rule_key_doc c -> cf_rule_key_impl c.
 Proof. intros [H|H]; [exists 0; rewrite H; auto|exists 32; auto]. Qed.
 
-(** soundness: a process that starts satisfies every documented rule, unless the key is blank *)
-Theorem cf_starts_sound r d : cf_starts r d = true -> ~ cf_key_blank (cf_resolve_all r) ->
-  cf_typed_ok r /\ cf_rules_doc (cf_resolve_all r) d.
+Lemma cf_rule_key_to_doc v c : cf_rule_key v c -> ~ cf_key_blank c -> cf_rule_key_doc c.
+Proof. unfold cf_rule_key. destruct (cf_v_key_strict v); [auto|apply cf_key_impl_doc]. Qed.
+Lemma cf_rule_key_of_doc v c : cf_rule_key_doc c -> cf_rule_key v c.
+Proof. unfold cf_rule_key. destruct (cf_v_key_strict v); [auto|apply cf_key_doc_impl]. Qed.
+
+(** any variant: whatever starts satisfies the variant's core rules and the strict key rule unless the key is blank *)
+Theorem cf_starts_sound v r d : cf_starts v r d = true -> ~ cf_key_blank (cf_resolve_all r) ->
+  cf_typed_ok r /\ cf_rules_core v (cf_resolve_all r) d /\ cf_rule_key_doc (cf_resolve_all r).
 Proof.
   intros H Hb. apply cf_starts_iff in H. destruct H as (Ht & Hc & Hk & _).
-  split; [exact Ht|]. split; [exact Hc|]. now apply cf_key_impl_doc.
+  split; [exact Ht|]. split; [exact Hc|]. now apply (cf_rule_key_to_doc v).
 Qed.
 
-(** completeness: a configuration satisfying every documented rule starts, provided no ingress path is a
-    malformed chi route pattern *)
-Theorem cf_starts_complete r d : cf_typed_ok r -> cf_rules_doc (cf_resolve_all r) d ->
-  cf_rule_routes (cf_resolve_all r) -> cf_starts r d = true.
+(** any variant: its core rules + the strict key rule + well-formed route patterns start *)
+Theorem cf_starts_complete v r d : cf_typed_ok r -> cf_rules_core v (cf_resolve_all r) d ->
+  cf_rule_key_doc (cf_resolve_all r) -> cf_rule_routes (cf_resolve_all r) -> cf_starts v r d = true.
 Proof.
-  intros Ht (Hc & Hk) Hr. apply cf_starts_iff. split; [exact Ht|]. split; [exact Hc|]. split; [now apply cf_key_doc_impl|exact Hr].
+  intros Ht Hc Hk Hr. apply cf_starts_iff. split; [exact Ht|]. split; [exact Hc|]. split; [now apply cf_rule_key_of_doc|exact Hr].
 Qed.
 
 (** * Witnesses *)
@@ -496,7 +586,7 @@ Definition cf_ex_disc_old : cf_disc := mk_cf_disc true [cf_lit_rs256] [cf_lit_le
 
 Definition cf_ex_good : cf_raw := cf_ex_standalone (bs "https://app.example.com") cf_ex_key32 cf_tabs cf_tabs cf_tabs.
 
-Lemma cf_ex_good_starts : cf_starts cf_ex_good cf_ex_disc = true.
+Lemma cf_ex_good_starts : cf_starts cf_cur cf_ex_good cf_ex_disc = true.
 Proof. vm_compute. reflexivity. Qed.
 
 (* SSO server and SSO proxy configurations that start *)
@@ -511,58 +601,78 @@ Definition cf_ex_proxy : cf_raw :=
     cf_nossrc cf_nossrc cf_nossrc cf_nossrc cf_nossrc (cf_flb cf_ex_redis) (cf_fl "proxy") (cf_fl "sso") cf_nossrc
     cf_nossrc (cf_fl "https://sso.example.com") cf_nossrc None None None None None None None
     cf_tabs (cf_tfl true) cf_tabs cf_tabs cf_tabs [] [cf_ex_redis] [].
-Lemma cf_ex_server_starts : cf_starts cf_ex_server cf_ex_disc = true.
+Lemma cf_ex_server_starts : cf_starts cf_cur cf_ex_server cf_ex_disc = true.
 Proof. vm_compute. reflexivity. Qed.
 (* the proxy does not look at the discovery document at all *)
-Lemma cf_ex_proxy_starts : forall d, cf_starts cf_ex_proxy d = true.
+Lemma cf_ex_proxy_starts : forall d, cf_starts cf_cur cf_ex_proxy d = true.
 Proof. intros d. vm_compute. reflexivity. Qed.
 
-(** a blank key (a single line feed) is accepted and replaced by a random key: the strict key rule is refuted *)
+(* the variants with exactly one fix reverted *)
+Definition cf_v_old_key : cf_variant := mk_cf_variant false true true.
+Definition cf_v_old_wait : cf_variant := mk_cf_variant true false true.
+Definition cf_v_old_ingress : cf_variant := mk_cf_variant true true false.
+
+(** OLD key variant: a blank key (a single line feed) was accepted and replaced by a random key; the current code
+    refuses it with the bad-length error *)
 Definition cf_ex_blank : cf_raw := cf_ex_standalone (bs "https://app.example.com") [10] cf_tabs cf_tabs cf_tabs.
 Lemma cf_blank_key_refuted :
-  cf_starts cf_ex_blank cf_ex_disc = true /\ ~ cf_rule_key_doc (cf_resolve_all cf_ex_blank).
+  cf_starts cf_v_old_key cf_ex_blank cf_ex_disc = true /\ ~ cf_rule_key_doc (cf_resolve_all cf_ex_blank) /\
+  cf_run cf_cur cf_ex_blank cf_ex_disc = Zpos cf_E_key_length.
 Proof.
-  split; [vm_compute; reflexivity|]. intros [H|H]; vm_compute in H; discriminate.
+  split; [vm_compute; reflexivity|]. split; [|vm_compute; reflexivity]. intros [H|H]; vm_compute in H; discriminate.
 Qed.
 
-(** a documented-valid ingress whose path is not a chi route pattern makes router.New panic *)
+(** OLD ingress variant: an ingress that satisfied every then-documented rule made router.New panic; the current
+    code refuses it in ParseIngress *)
 Definition cf_ex_star : cf_raw := cf_ex_standalone (bs "https://app.example.com/x*y") cf_ex_key32 cf_tabs cf_tabs cf_tabs.
-Lemma cf_ex_star_rules : cf_typed_ok cf_ex_star /\ cf_rules_doc (cf_resolve_all cf_ex_star) cf_ex_disc.
+Lemma cf_ex_star_rules : cf_typed_ok cf_ex_star /\ cf_rules_doc_old (cf_resolve_all cf_ex_star) cf_ex_disc /\
+  cf_rules_core cf_v_old_ingress (cf_resolve_all cf_ex_star) cf_ex_disc.
 Proof.
-  split; [split; reflexivity|]. split.
-  - unfold cf_rules_core.
+  split; [split; reflexivity|].
+  assert (H : forall v, cf_v_ingress_strict v = false -> cf_rules_core v (cf_resolve_all cf_ex_star) cf_ex_disc).
+  { intros v Hv. unfold cf_rules_core.
     split; [apply cf_cookie_validate_none; vm_compute; reflexivity|].
     split; [apply cf_openid_validate_none; vm_compute; reflexivity|].
     split; [apply cf_sso_validate_none; vm_compute; reflexivity|].
     split; [apply cf_upstream_validate_none; vm_compute; reflexivity|].
-    split; [apply cf_periods_validate_none; vm_compute; reflexivity|].
+    split; [split; [intros _; vm_compute; discriminate|vm_compute; reflexivity]|].
     split; [intros _; split; [apply cf_client_config_none|apply cf_provider_jwks_none]; vm_compute; reflexivity|].
     split; [apply cf_new_store_none; vm_compute; reflexivity|].
-    apply cf_parse_ingresses_none; vm_compute; reflexivity.
-  - right. vm_compute. reflexivity.
+    apply cf_parse_ingresses_none. unfold cf_parse_ingresses, cf_parse_ingress. rewrite Hv. vm_compute. reflexivity. }
+  split; [split; [apply H; reflexivity|right; vm_compute; reflexivity]|apply H; reflexivity].
 Qed.
 
 Lemma cf_route_pattern_refuted :
-  cf_typed_ok cf_ex_star /\ cf_rules_doc (cf_resolve_all cf_ex_star) cf_ex_disc /\ cf_starts cf_ex_star cf_ex_disc = false.
-Proof. destruct cf_ex_star_rules as [H1 H2]. split; [exact H1|split; [exact H2|vm_compute; reflexivity]]. Qed.
+  cf_typed_ok cf_ex_star /\ cf_rules_doc_old (cf_resolve_all cf_ex_star) cf_ex_disc /\
+  cf_run cf_v_old_ingress cf_ex_star cf_ex_disc = Zpos cf_E_route /\
+  cf_run cf_cur cf_ex_star cf_ex_disc = Zpos cf_E_ing_pattern.
+Proof.
+  destruct cf_ex_star_rules as (H1 & H2 & _). split; [exact H1|]. split; [exact H2|]. split; vm_compute; reflexivity.
+Qed.
 
-(** negative periods pass the check "graceful > wait-before" *)
+(** OLD periods variant: negative periods passed the check "graceful > wait-before"; the current code refuses *)
 Definition cf_ex_negw : cf_raw :=
   cf_ex_standalone (bs "https://app.example.com") cf_ex_key32 cf_tabs (cf_tfl 0%Z) (cf_tfl (-1000000000)%Z).
 Lemma cf_negative_wait_accepted :
-  cf_starts cf_ex_negw cf_ex_disc = true /\ (cf_waitbefore (cf_resolve_all cf_ex_negw) < 0)%Z /\
-  (cf_graceful (cf_resolve_all cf_ex_negw) = 0)%Z.
+  cf_starts cf_v_old_wait cf_ex_negw cf_ex_disc = true /\ (cf_waitbefore (cf_resolve_all cf_ex_negw) < 0)%Z /\
+  (cf_graceful (cf_resolve_all cf_ex_negw) = 0)%Z /\ cf_run cf_cur cf_ex_negw cf_ex_disc = Zpos cf_E_wait_neg.
 Proof. repeat split; vm_compute; reflexivity. Qed.
 
 (** * The documentation's view of the provider-specific variables and defaults *)
 
-(* docs/configuration.md: Azure JWK in AZURE_APP_CLIENT_JWK; idporten default acr "Level4" *)
-Definition cf_docs_view (r : cf_raw) : cf_raw :=
+(* what docs/configuration.md says about the two points where it once differed from the code:
+   the variable holding the Azure JWK, and the idporten default of openid.acr-values *)
+Record cf_docs := mk_cf_docs { cf_doc_azure_jwk_bound : bool (* true: AZURE_APP_JWK, false: AZURE_APP_CLIENT_JWK *);
+                               cf_doc_idporten_acr : bytes }.
+Definition cf_docs_now : cf_docs := mk_cf_docs true cf_lit_loa_high.      (* since 111edb0 / 8ed9a06 *)
+Definition cf_docs_before : cf_docs := mk_cf_docs false cf_lit_level4.
+
+Definition cf_docs_view (dv : cf_docs) (r : cf_raw) : cf_raw :=
   mk_cf_raw (cf_r_provider r) (cf_r_key r) (cf_r_ingress r) (cf_r_samesite r) (cf_r_clientid r) (cf_r_jwk r)
     (cf_r_secret r) (cf_r_wellknown r) (cf_r_alg r) (cf_r_acr r) (cf_r_locale r) (cf_r_redisaddr r) (cf_r_redisuri r)
     (cf_r_ssomode r) (cf_r_ssocookie r) (cf_r_ssodomain r) (cf_r_ssoredirect r) (cf_r_ssoserverurl r) (cf_r_upip r)
     (cf_r_idp_clientid r) (cf_r_idp_jwk r) (cf_r_idp_wellknown r) (cf_r_az_clientid r)
-    (cf_r_az_docjwk r) (cf_r_az_wellknown r) (cf_r_az_docjwk r)
+    (if cf_doc_azure_jwk_bound dv then cf_r_az_jwk r else cf_r_az_docjwk r) (cf_r_az_wellknown r) (cf_r_az_docjwk r)
     (cf_r_secure r) (cf_r_ssoenabled r) (cf_r_upport r) (cf_r_graceful r) (cf_r_waitbefore r)
     (cf_r_ojwk r) (cf_r_oredis r) (cf_r_ofetch r).
 
@@ -575,14 +685,35 @@ Definition cf_set_acr (c : cf_cfg) (a : bytes) : cf_cfg :=
 Definition cf_acr_defaulted (r : cf_raw) : bool :=
   match cf_sflag (cf_r_acr r), cf_env_val (cf_swenv (cf_r_acr r)) with None, None => true | _, _ => false end.
 
-Definition cf_resolve_doc (r : cf_raw) : cf_cfg :=
-  let c := cf_resolve_all (cf_docs_view r) in
+(* resolution as the documentation [dv] describes it *)
+Definition cf_resolve_doc (dv : cf_docs) (r : cf_raw) : cf_cfg :=
+  let c := cf_resolve_all (cf_docs_view dv r) in
   match cf_provider_of c with
-  | CfIDPorten => if cf_acr_defaulted r then cf_set_acr c cf_lit_level4 else c
+  | CfIDPorten => if cf_acr_defaulted r then cf_set_acr c (cf_doc_idporten_acr dv) else c
   | _ => c
   end.
 
-(* the documentation's Azure example: AZURE_APP_CLIENT_ID, AZURE_APP_CLIENT_JWK, AZURE_APP_WELL_KNOWN_URL *)
+Lemma cf_acr_defaulted_spec r : cf_acr_defaulted r = true ->
+  forall dflt, cf_resolve dflt (cf_r_acr r) None = dflt.
+Proof.
+  unfold cf_acr_defaulted, cf_resolve. intros H dflt.
+  destruct (cf_sflag (cf_r_acr r)); [discriminate|]. destruct (cf_env_val (cf_swenv (cf_r_acr r))); [discriminate|reflexivity].
+Qed.
+
+(** the documentation as it is now describes exactly the code's resolution, on every raw configuration *)
+Theorem cf_docs_now_agree r : cf_resolve_doc cf_docs_now r = cf_resolve_all r.
+Proof.
+  unfold cf_resolve_doc.
+  assert (E : cf_docs_view cf_docs_now r = r) by (destruct r; reflexivity).
+  rewrite E. destruct (cf_provider_of (cf_resolve_all r)) eqn:Ep; try reflexivity.
+  destruct (cf_acr_defaulted r) eqn:Ea; [|reflexivity].
+  unfold cf_set_acr. cbn [cf_doc_idporten_acr cf_docs_now].
+  assert (Hacr : cf_acr (cf_resolve_all r) = cf_lit_loa_high).
+  { unfold cf_resolve_all in *. cbn [cf_acr cf_provider_of] in *. rewrite Ep. apply cf_acr_defaulted_spec, Ea. }
+  rewrite <- Hacr. destruct (cf_resolve_all r); reflexivity.
+Qed.
+
+(* the documentation's former Azure example: AZURE_APP_CLIENT_ID, AZURE_APP_CLIENT_JWK, AZURE_APP_WELL_KNOWN_URL *)
 Definition cf_ex_jwk : bytes := bs "{""kty"":""oct"",""k"":""AAAA""}".
 Definition cf_ex_azure_docs : cf_raw :=
   mk_cf_raw (cf_fl "azure") (cf_flb cf_ex_key32) (cf_fl "https://app.example.com") cf_nossrc cf_nossrc cf_nossrc cf_nossrc
@@ -591,11 +722,11 @@ Definition cf_ex_azure_docs : cf_raw :=
     cf_tabs cf_tabs cf_tabs cf_tabs cf_tabs [cf_ex_jwk] [] [cf_ex_wk].
 
 Lemma cf_docs_azure_jwk_refuted :
-  cf_boot (cf_resolve_doc cf_ex_azure_docs) cf_ex_disc = None /\
-  cf_run cf_ex_azure_docs cf_ex_disc = Zpos cf_E_creds.
+  cf_boot cf_cur (cf_resolve_doc cf_docs_before cf_ex_azure_docs) cf_ex_disc = None /\
+  cf_run cf_cur cf_ex_azure_docs cf_ex_disc = Zpos cf_E_creds.
 Proof. split; vm_compute; reflexivity. Qed.
 
-(* idporten with the documented default acr against a provider that lists only Level3 / Level4 *)
+(* idporten with the formerly documented default acr against a provider that lists only Level3 / Level4 *)
 Definition cf_ex_idporten : cf_raw :=
   mk_cf_raw (cf_fl "idporten") (cf_flb cf_ex_key32) (cf_fl "https://app.example.com") cf_nossrc (cf_fl "cid") cf_nossrc
     (cf_fl "s") (cf_flb cf_ex_wk) cf_nossrc cf_nossrc cf_nossrc cf_nossrc cf_nossrc cf_nossrc cf_nossrc cf_nossrc
@@ -603,22 +734,10 @@ Definition cf_ex_idporten : cf_raw :=
     cf_tabs cf_tabs cf_tabs cf_tabs cf_tabs [] [] [cf_ex_wk].
 
 Lemma cf_docs_idporten_acr_refuted :
-  cf_boot (cf_resolve_doc cf_ex_idporten) cf_ex_disc_old = None /\
-  cf_run cf_ex_idporten cf_ex_disc_old = Zpos cf_E_acr /\
-  cf_run cf_ex_idporten cf_ex_disc_new = 0%Z.
+  cf_boot cf_cur (cf_resolve_doc cf_docs_before cf_ex_idporten) cf_ex_disc_old = None /\
+  cf_run cf_cur cf_ex_idporten cf_ex_disc_old = Zpos cf_E_acr /\
+  cf_run cf_cur cf_ex_idporten cf_ex_disc_new = 0%Z.
 Proof. repeat split; vm_compute; reflexivity. Qed.
-
-(** where the documentation's view and the code's view coincide, so do the outcomes *)
-Lemma cf_docs_view_same r :
-  cf_r_az_docjwk r = cf_r_az_jwk r ->
-  (cf_provider_of (cf_resolve_all r) = CfIDPorten -> cf_acr_defaulted r = false) ->
-  cf_resolve_doc r = cf_resolve_all r.
-Proof.
-  intros Hj Ha. unfold cf_resolve_doc.
-  assert (E : cf_docs_view r = r) by (destruct r; cbn in Hj; subst; reflexivity).
-  rewrite E. destruct (cf_provider_of (cf_resolve_all r)) eqn:Ep; try reflexivity.
-  rewrite (Ha eq_refl). reflexivity.
-Qed.
 
 (** * Channel resolution *)
 Lemma cf_resolve_flag dflt s p v : cf_sflag s = Some v -> cf_resolve dflt s p = v.
@@ -640,19 +759,25 @@ Lemma cf_ex_key32_len : cf_b64_len cf_ex_key32 = Some 32.
 Proof. vm_compute. reflexivity. Qed.
 
 (** * Tie to the ingress model used by C04 / C14 (Model/Redirect.v:parse_ingress): same accept set *)
-Lemma cf_parse_ingress_agrees s : cf_parse_ingress s = None <-> exists u, parse_ingress s = Some u.
+Lemma cf_parse_ingress_agrees v s :
+  cf_parse_ingress v s = None <->
+  exists u, parse_ingress s = Some u /\ (cf_v_ingress_strict v = true -> cf_has_pattern (u_path u) = false).
 Proof.
   unfold cf_parse_ingress, parse_ingress. destruct (is_empty s).
-  { split; [discriminate|intros [u H]; discriminate]. }
+  { split; [discriminate|intros (u & H & _); discriminate]. }
   destruct (parse_request_uri s) as [u|]; cbn [opt_bind].
-  2:{ split; [discriminate|intros [u H]; discriminate]. }
+  2:{ split; [discriminate|intros (u & H & _); discriminate]. }
   destruct (is_empty (u_host u)).
-  { split; [discriminate|intros [u' H]; discriminate]. }
+  { split; [discriminate|intros (u' & H & _); discriminate]. }
   unfold is_valid_scheme.
   change s_http with cf_lit_http. change s_https with cf_lit_https.
   destruct (beq (u_scheme u) cf_lit_http || beq (u_scheme u) cf_lit_https); cbn [negb].
-  - split; [intros _; eexists; reflexivity|reflexivity].
-  - split; [discriminate|intros [u' H]; discriminate].
+  2:{ split; [discriminate|intros (u' & H & _); discriminate]. }
+  destruct (cf_v_ingress_strict v); cbn [andb].
+  - destruct (cf_has_pattern (trim_right_slash (u_path u))) eqn:Ep.
+    + split; [discriminate|]. intros (u' & [= <-] & H). cbn [u_path] in H. specialize (H eq_refl). congruence.
+    + split; [intros _; eexists; split; [reflexivity|intros _; exact Ep]|reflexivity].
+  - split; [intros _; eexists; split; [reflexivity|discriminate]|reflexivity].
 Qed.
 
 (** * The base64 length model on well-formed input: 4k alphabet characters decode to 3k bytes, and
@@ -705,10 +830,20 @@ Qed.
 (** every standard encoding of 32 bytes (43 alphabet characters and one '=') passes the key check, and every
     encoding of 16 bytes (22 characters and "==") or 33 bytes (44 characters) is refused for its length *)
 Lemma cf_key32_accepted s c1 c2 c3 : length s = 40%nat -> forallb cf_b64_char (s ++ [c1; c2; c3]) = true ->
-  cf_key_check (s ++ [c1; c2; c3; 61]) = None.
+  forall v, cf_key_check v (s ++ [c1; c2; c3; 61]) = None.
 Proof.
-  intros Hl Hv. unfold cf_key_check. rewrite (cf_b64_len_padded1 10 s c1 c2 c3 Hl Hv). reflexivity.
+  intros Hl Hv v. unfold cf_key_check. rewrite (cf_b64_len_padded1 10 s c1 c2 c3 Hl Hv).
+  destruct (cf_v_key_strict v); [|reflexivity].
+  destruct (s ++ [c1; c2; c3; 61]) eqn:E; [destruct s; discriminate E|reflexivity].
 Qed.
 
-Lemma cf_key33_refused s : length s = 44%nat -> forallb cf_b64_char s = true -> cf_key_check s = Some cf_E_key_length.
-Proof. intros Hl Hv. unfold cf_key_check. rewrite (cf_b64_len_unpadded 11 s Hl Hv). reflexivity. Qed.
+Lemma cf_key33_refused s : length s = 44%nat -> forallb cf_b64_char s = true ->
+  forall v, cf_key_check v s = Some cf_E_key_length.
+Proof.
+  intros Hl Hv v. unfold cf_key_check. rewrite (cf_b64_len_unpadded 11 s Hl Hv).
+  destruct (cf_v_key_strict v); [|reflexivity]. destruct s; [discriminate Hl|reflexivity].
+Qed.
+
+(** current variant: a non-empty key string made only of CR / LF is refused (it decodes to zero bytes) *)
+Lemma cf_blank_key_refused k : k <> [] -> cf_b64_len k = Some 0 -> cf_key_check cf_cur k = Some cf_E_key_length.
+Proof. intros Hk Hb. unfold cf_key_check. cbn [cf_v_key_strict cf_cur]. destruct k; [contradiction|]. cbn [is_empty]. rewrite Hb. reflexivity. Qed.
